@@ -48,6 +48,15 @@ def cells(tier, seed):
                 if not any(m):
                     m[rnd.randrange(c['J'])] = True
                 c['none_mask'] = m
+            if kind == 'dti' and rnd.random() < 0.5:
+                # absent entries of a DTCWT pyramid (None): some highpass levels, sometimes the lowpass too
+                # (then the coarsest highpass is kept, from which the library sizes the zeros)
+                m = [rnd.random() < 0.4 for _ in range(c['J'])]
+                if rnd.random() < 0.5:
+                    m[-1] = False
+                    c['low_absent'] = True
+                if any(m) or c.get('low_absent'):
+                    c['none_mask'] = m
             out.append(c)
     rnd.shuffle(out)
     return out
@@ -284,10 +293,15 @@ def run_cell(cell, seed):
                 'returned' if ok1 else 'raised', 'returned' if ok2 else 'raised')))
     # None levels keep working in both precisions
     if cell.get('none_mask'):
-        for dt, A, xs in ((f64, A64, xs64), (f32, A32, xs32), (f64, A32d, xs64), (f32, A64f, xs32)):
+        obs = [(dt, A, util.call_lib(A.apply, xs)) for dt, A, xs in ((f64, A64, xs64), (f32, A32, xs32), (f64, A32d, xs64), (f32, A64f, xs32))]
+        all_raise_alike = all(not o[2][0] for o in obs) and len({type(o[2][1]) for o in obs}) == 1
+        for dt, A, (ok, yn) in obs:
             case = dict(base, check='none-levels', dtype=str(dt), converted=A in (A32d, A64f))
-            ok, yn = util.call_lib(A.apply, xs)
-            if not ok:
+            if all_raise_alike:
+                # a pyramid that the transform rejects in every precision alike (shape-inconsistent once the
+                # levels are absent: C10 / C11's subject) says nothing about dtypes
+                out.append(res(core.SKIPPED, case, 'M-NONE', 'rejected alike in all four precisions: %s' % type(yn).__name__))
+            elif not ok:
                 out.append(res(VIOLATED, case, 'M-NONE', 'raised %r with None levels in %s' % (yn, dt)))
             else:
                 bad = [str(t.dtype) for t in yn if t.dtype != dt]
